@@ -52,25 +52,32 @@ _INT_MM = {}
 
 
 def int_mm_exact_classes():
-    """A-TORCH-CAP for torch._int_mm on this build (CPU): for which (inner size == 1?, second operand a transposed view?) classes does the
-    kernel return the exact integer product?  Probed on small shapes against the int32 reference.  -> {(k_is_one, transposed): bool}"""
+    """A-TORCH-CAP for torch._int_mm(a[n,k], b[k,p]) on this build (CPU): for which classes (first operand a transposed view?, second
+    operand a transposed view?, n == 1?, k == 1?, p == 1?) does the kernel return the exact integer product?  Probed on small shapes
+    against the int32 reference.  -> {(a_t, b_t, n_one, k_one, p_one): bool}"""
     if _INT_MM:
         return _INT_MM
+    import itertools
+
     import torch
 
     g = torch.Generator().manual_seed(0)
-    for k_one in (True, False):
-        for transposed in (True, False):
-            ok = True
-            for n in (1, 4, 17, 24):
-                for p in (1, 3, 8):
-                    for k in ((1,) if k_one else (2, 3, 8, 16)):
-                        a = torch.randint(-128, 127, (n, k), dtype=torch.int8, generator=g)
-                        b = torch.randint(-128, 127, (p, k), dtype=torch.int8, generator=g).t() if transposed else torch.randint(-128, 127, (k, p), dtype=torch.int8, generator=g)
+
+    def mk(r, c, tr):
+        return (torch.randint(-128, 127, (c, r), dtype=torch.int8, generator=g).t() if tr
+                else torch.randint(-128, 127, (r, c), dtype=torch.int8, generator=g))
+
+    for a_t, b_t, n1, k1, p1 in itertools.product((False, True), repeat=5):
+        ok = True
+        for n in ((1,) if n1 else (2, 4, 17, 24)):
+            for k in ((1,) if k1 else (2, 3, 8, 16, 33)):
+                for p in ((1,) if p1 else (2, 3, 8, 24)):
+                    for _ in range(2):
+                        a, b = mk(n, k, a_t), mk(k, p, b_t)
                         try:
                             if not torch.equal(torch._int_mm(a, b), a.int() @ b.int()):
                                 ok = False
                         except Exception:
                             pass    # (argument checks of the kernel are another matter)
-            _INT_MM[(k_one, transposed)] = ok
+        _INT_MM[(a_t, b_t, n1, k1, p1)] = ok
     return _INT_MM
